@@ -33,7 +33,7 @@ DEFAULT_CFG = dict(
     p_appearance=0.15, p_parameters=0.3, p_repeat_count=0.3, p_section_label=0.8,
     p_bind_extra=0.0, p_instance_extra=0.0, p_body_extra=0.0,
     p_settings=0.5, name_style="mixed", p_group_logic=0.3, p_disabled=0.0,
-    hostile_text=False, audit=0.0, p_choice_nolabel=0.0, p_choice_label_ref=0.0, p_search=0.0,
+    hostile_text=False, audit=0.0, p_choice_nolabel=0.0, p_choice_label_ref=0.0, p_search=0.0, p_section_media=0.0, p_noapp=0.0,
 )
 
 PLAIN_NAMES = ["age", "name1", "dob", "village", "hh", "crop", "income", "gps", "photo1", "notes", "visit",
@@ -283,6 +283,15 @@ def gen_form(rng: random.Random, cfg=None) -> Form:
                     r.cells["repeat_count"] = str(rng.randint(1, 5))
             if r.kind == "group" and rng.random() < cfg["p_appearance"]:
                 r.cells["appearance"] = "field-list"
+            if rng.random() < cfg["p_section_media"]:
+                m = rng.choice(["image", "audio"])
+                if langs and rng.random() < 0.5:
+                    r.cells[lang_header(m, rng.choice(langs), cfg)] = f"{m}_{r.name}.bin"
+                else:
+                    r.cells[m] = f"{m}_{r.name}.bin"
+                if rng.random() < 0.5:
+                    for h in [h for h in r.cells if h.startswith("label")]:
+                        del r.cells[h]
             continue
         t = r.type
         base_t = t.split(" ")[0]
@@ -354,6 +363,16 @@ def gen_form(rng: random.Random, cfg=None) -> Form:
                 cols = [k for c in f.choices[r.meta["list"]] for k in c if k in ("region", "code", "grp", "lvl")]
                 col = cols[0] if cols else "name"
                 r.cells["choice_filter"] = f"{col} = ${{{tg.name}}}" if tg else f"{col} != ''"
+        if visible and rng.random() < cfg["p_noapp"]:
+            if rng.random() < 0.5:
+                put_text(r, "no_app_error_string", "noapp")
+            else:
+                r.cells["no_app_error_string"] = text_for(rng, cfg, r.name, "noapp", None)
+            if rng.random() < 0.4:
+                tg = pick_ref(r, anc)
+                h = rng.choice([h for h in r.cells if h.startswith("no_app_error_string")])
+                if tg is not None:
+                    r.cells[h] += f" ${{{tg.name}}} z"
         if rng.random() < cfg["p_bind_extra"]:
             r.cells["bind::odk:foo"] = f"bx.{r.name}"
         if rng.random() < cfg["p_instance_extra"]:
@@ -398,6 +417,8 @@ def gen_form(rng: random.Random, cfg=None) -> Form:
         f.settings["form_id"] = "fid_" + rng.choice(WORDS)
         if rng.random() < 0.5:
             f.settings["version"] = str(rng.randrange(1, 2030010199))
+    if any(h.startswith("body::kb:") for r, _ in all_rows for h in r.cells):
+        f.settings["namespaces"] = 'kb="http://kobotoolbox.org/xforms"'
     if langs and rng.random() < 0.6:
         f.settings["default_language"] = rng.choice(langs)
     if cfg["audit"] and rng.random() < cfg["audit"]:
